@@ -124,6 +124,17 @@ func init() {
 					}
 				}
 			}
+			// escape parity: an escaped backslash or an escaped operator directly in front of an
+			// operator (`\\|` is an alternation after a literal backslash, `\|` a literal pipe)
+			for _, lit1 := range []string{"abc", "a"} {
+				for _, esc := range []string{`\\`, `\|`, `\\\|`, `\\\\`, `\*`, `\(`} {
+					for _, op := range []string{"|", "*", "+", "?", "", "{2}"} {
+						for _, lit2 := range []string{"de", "defgh"} {
+							addRegexRule(rx, seenN, "/"+lit1+esc+op+lit2+"/")
+						}
+					}
+				}
+			}
 			bd := bundledRegexRules(nb)
 			all := &nativeRules{}
 			all.texts = append(append(append(all.texts, mask.texts...), rx.texts...), bd.texts...)
@@ -165,8 +176,8 @@ func init() {
 		},
 		MustReach: []string{"c03b.rule", "c05.rule", "c05.accepts"},
 		Bounds: map[string]string{
-			"quick":    "mask patterns of 1..2 tokens (as C03) + 100 seeded longer ones; regular expressions of 1..2 atoms over 25 atoms plus 60 seeded ones of 3..4 atoms and up to 90 nested-group shapes ((inner group) outer quantifier, literal tail) (literals, \\d \\w \\s \\b \\. \\/ \\xHH, classes, groups with alternation, | * + {m,n} ? ^ $ .); the first 60 regular-expression rules of the bundled lists; for each rule ALL URLs of 0..12 printable-ASCII bytes and ALL hostnames of 1..8 bytes",
-			"thorough": "mask 1..2 tokens plus 500 seeded longer ones, regular expressions 1..2 atoms plus 400 seeded ones of 3..4 atoms and the nested-group shapes, every regular-expression rule of the bundled lists; URLs 0..16 bytes, hostnames 1..10 bytes (the earlier bound, URLs to 20 bytes with 3500 seeded rules, did not finish in 50 minutes and is not claimed)",
+			"quick":    "mask patterns of 1..2 tokens (as C03) + 100 seeded longer ones; regular expressions of 1..2 atoms over 25 atoms plus 60 seeded ones of 3..4 atoms and up to 90 nested-group shapes ((inner group) outer quantifier, literal tail) and up to 144 escape-parity shapes (literal, escaped backslash / escaped operator, operator, literal) (literals, \\d \\w \\s \\b \\. \\/ \\xHH, classes, groups with alternation, | * + {m,n} ? ^ $ .); the first 60 regular-expression rules of the bundled lists; for each rule ALL URLs of 0..12 printable-ASCII bytes and ALL hostnames of 1..8 bytes",
+			"thorough": "mask 1..2 tokens plus 500 seeded longer ones, regular expressions 1..2 atoms plus 400 seeded ones of 3..4 atoms and the nested-group and escape-parity shapes, every regular-expression rule of the bundled lists; URLs 0..16 bytes, hostnames 1..10 bytes (the earlier bound, URLs to 20 bytes with 3500 seeded rules, did not finish in 50 minutes and is not claimed)",
 		},
 		Outside:     []string{"URLs longer than the bound (a rule whose shortest match is longer is vacuously covered)", "non-ASCII bytes", "look-arounds (rejected by Go's regexp: the rule is invalid and never matches)"},
 		Assumptions: []string{"regexp encoding == (*Regexp).MatchString on ASCII (validated on concrete strings each run)"},
